@@ -77,15 +77,22 @@ def spec_coq(sp):
     return f"(mkU {part} {order} {fr})"
 
 
-def spec_sf(sp, F, Window):
+def spec_sf(sp, F, Window, decoy=True):
+    """Build the spec the way users do: from a shared base spec object from which another (decoy) spec was derived
+    first -- partitionBy/orderBy/rowsBetween must leave the object they are called on untouched."""
     w = None
     if sp["part"]:
         w = Window.partitionBy(*sp["part"])
+        if decoy:
+            w.orderBy(F.col("v").desc()).rowsBetween(-1, 1)
+            w.partitionBy("k")
     if sp["order"]:
         keys = []
         for c, m in sp["order"]:
             keys.append(c if m == "bare" else getattr(F.col(c), m)())
         w = w.orderBy(*keys) if w is not None else Window.orderBy(*keys)
+        if decoy:
+            w.orderBy("id").rangeBetween(Window.unboundedPreceding, Window.currentRow)
     if sp["frame"] is not None:
         kind, s, e = sp["frame"]
         meth = "rowsBetween" if kind == "rows" else "rangeBetween"
@@ -192,16 +199,26 @@ def run(ctx: core.Ctx):
             if key in seen:
                 continue
             seen.add(key)
-            impl, exc = "None", None
+            impl, impl2, exc = "None", "None", None
             try:
                 df = session.createDataFrame(rows, SCHEMA)
-                got = df.select("id", "p", "k", "v", fun_sf(f, F).over(spec_sf(sp, F, Window)).alias("w")).collect()
-                impl = "(Some " + listlit([rel.row_coq(tuple(r)) for r in got]) + ")"
+                w = spec_sf(sp, F, Window)
+                # the same spec object is used for a second window column (count(*)), before or after the one under test
+                if len(items) % 2:
+                    sel = [F.count("*").over(w).alias("w2"), fun_sf(f, F).over(w).alias("w")]
+                else:
+                    sel = [fun_sf(f, F).over(w).alias("w"), F.count("*").over(w).alias("w2")]
+                got = df.select("id", "p", "k", "v", *sel).collect()
+                impl = "(Some " + listlit([rel.row_coq((r["id"], r["p"], r["k"], r["v"], r["w"])) for r in got]) + ")"
+                impl2 = "(Some " + listlit([rel.row_coq((r["id"], r["p"], r["k"], r["v"], r["w2"])) for r in got]) + ")"
             except Exception as ex:
                 exc = f"{type(ex).__name__}: {str(ex)[:200]}"
                 n_raise += 1
             items.append(f"(mkWCase {rel.frame_coq(COLS, rows)} {spec_coq(sp)} {fun_coq(f)} {impl})")
             metas.append({"spec": sp, "fun": f, "table": tname, "exc": exc})
+            if exc is None and tname != "empty":
+                items.append(f"(mkWCase {rel.frame_coq(COLS, rows)} {spec_coq(sp)} WCountStar {impl2})")
+                metas.append({"spec": sp, "fun": ("count_star",), "table": tname, "exc": None, "second_column": True})
             hist_fun[f[0]] = hist_fun.get(f[0], 0) + 1
             fk = "default" if sp["frame"] is None else sp["frame"][0]
             hist_frame[fk] = hist_frame.get(fk, 0) + 1
